@@ -597,8 +597,8 @@ _extend("C04",
     scope="js_parser.go toAST 'Map locals to parts' (topLevelSymbolToParts: link following, the alias entries for merged symbols, NSExportPartIndex); graph.go AddPartToFile overlay / TopLevelSymbolToParts / GenerateSymbolImportAndUse / GenerateRuntimeSymbolImportAndUse; linker.go scanImportsAndExports: createWrapperForFile (step 4), createExportsForFile deps+uses, the SymbolCallUses loop, the const-value skip, the local-dependency loop with LocalPartsWithUses (step 5), the ImportsToBind loop incl. ReExports, the entry-point part, the import-record loop and the export-star loop (step 6) — modelled on the final tables (Impl/PartDeps.lean) against Spec/PartDeps.lean, tied through the partdeps observation hook on real builds; composed with Impl/Shake.lean",
     assumptions=["partdeps: the hook observes AFTER steps 4-6, so the final SymbolUses are an input and linker-added uses are checked to be among them; Dependencies/LocalPartsWithUses/TopLevelSymbolToParts compared as sets; wf (8 bits + xu) is evaluated by the driver on every real dump and was never violated; aliasOk is a separate hypothesis of soundness that real builds can violate (see open)"])
 
-# scope (C15): the parser's scope analysis (declare / hoist / lookup)
-_extend("C15",
+# scope (C15): the parser's scope analysis (declare / hoist / lookup) (held back until the model follows fix 984c8f5: block function past `with`)
+_HELD("C15",
     lean_modules=["EsbuildModel.Props.C15Scopes", "EsbuildModel.Props.C15Redecl", "EsbuildModel.Props.C15Lookup", "EsbuildModel.Props.C15WithPin"],
     theorems=_thms("Scopes", "hoisted_tree_wellformed parser_tree_slots_separate_visible sibling_scopes_declare_disjoint_symbols "
                    "redeclaration_error_implies_early_error no_early_error_no_redeclaration_error redeclaration_errors_iff_early_error_partial "
